@@ -56,6 +56,10 @@ CHECKS["C14"] = ("names", "model_checking",
    "bounded exhaustive exploration of on-disk libraries: every subset (up to the bound) of a file-name alphabet (spaces, non-ASCII, %, dots, .md.md, nested directories, #) under every base-path form (plain, with a space, trailing slash) is written to a scratch directory and loaded by the real disk loader and Server; the file, its file:// URI (built by Url::from_file_path) and links to it must address one and the same note: formatting, references, go-to-definition, didChange (no second note), and every URI in responses maps back to an existing file",
    "note identity is observed through titles; the Server is driven directly with the state produced by liwe::fs::new_for_path (the state: None branch of main_loop)",
    "explicit-state enumeration of the configuration space against the implementation", "§5 C14")
+CHECKS["C08"] = ("libspace", "model_checking",
+   "bounded exhaustive exploration: every library of the libspace alphabet x the first link of the owner note as rename site x every new name (free, taken, in a sub-directory, from root and from a sub-directory) is answered by the real rename handler; the WorkspaceEdit is applied to a copy of the library by an independent applier and the result is re-scanned with the independent link scanner / resolver (old key gone, new note with equal content, every link to the old key follows, every other link resolves as before, unrelated notes byte-identical, taken name refused)",
+   "the new name is accepted as library-relative or relative to the issuing note's directory; only what links resolve to is compared for rewritten notes, not their formatting",
+   "explicit-state enumeration of configurations x operations against the implementation with a reference-model oracle", "§5 C08")
 NOT_APPLICABLE = {}
 manifest = {
  "version": 1,
@@ -71,7 +75,7 @@ manifest = {
    {"name": "histspace", "path": "/verif/mc/src/engines/hist.rs", "serves_properties": ["C04","C20"], "kind_free_text": "enumerates all update/insert histories up to a depth and runs them on the real Database / Server"},
    {"name": "sched", "path": "/verif/mc/src/engines/sched.rs", "serves_properties": ["C11"], "kind_free_text": "hook-driven cooperative scheduler exploring all interleavings of the real LSP message loop and request workers"},
    {"name": "reqs", "path": "/verif/mc/src/engines/reqs.rs", "serves_properties": ["C12"], "kind_free_text": "drives every request of a parameter alphabet, singly and in sequences, through the real main_loop over an in-memory connection"},
-   {"name": "libspace", "path": "/verif/mc/src/libspace.rs + engines/links.rs", "serves_properties": ["C05","C06"], "kind_free_text": "enumerates small libraries from a link-placement x kind x url-form alphabet and compares the real answers with an independent link scanner/resolver"},
+   {"name": "libspace", "path": "/verif/mc/src/libspace.rs + engines/links.rs", "serves_properties": ["C05","C06","C08"], "kind_free_text": "enumerates small libraries from a link-placement x kind x url-form alphabet and compares the real answers with an independent link scanner/resolver"},
    {"name": "positions", "path": "/verif/mc/src/engines/positions.rs", "serves_properties": ["C13"], "kind_free_text": "sweeps every cursor position of documents with CRLF / non-ASCII prefixes through the real position-based handlers"},
    {"name": "paths", "path": "/verif/mc/src/engines/paths.rs", "serves_properties": ["C15"], "kind_free_text": "round-trip laws of relative link arithmetic over all path shapes up to a depth"},
    {"name": "names", "path": "/verif/mc/src/engines/names.rs", "serves_properties": ["C14"], "kind_free_text": "writes libraries with awkward file names / base paths to disk and drives the real loader + server through file URIs"},
